@@ -441,6 +441,9 @@ func (rw *Rewriter) r9(p *Node) string {
 			if n.K != KFunc || n.Has(FSynthetic) {
 				return false
 			}
+			if Any(n, true, true, func(x *Node) bool { return x.K == KTagged }) {
+				return false // every evaluation of the text would create new template sites (template objects are per site)
+			}
 			if role == RNamed && (n.S == "" || n.Has(FArrow)) {
 				// NamedEvaluation would name the anonymous function after the target; the value of eval(...) is not an
 				// anonymous function definition, so its name would stay "" (programs log .name)
@@ -895,6 +898,9 @@ func (rw *Rewriter) r13(p *Node) string {
 		}
 		if role == RNamed && (n.S == "" || n.Has(FArrow)) {
 			return false // the name given by the syntactic position would be lost
+		}
+		if Any(n, true, true, func(x *Node) bool { return x.K == KTagged }) {
+			return false // the eval'd text would have template sites of its own
 		}
 		if AvoidEvalInParams && c.InParams {
 			return false // listed known finding C02-param-tdz-through-eval
